@@ -89,6 +89,17 @@ Theorem C08_assign_proper : forall adj, (forall a b, In a (adj b) -> In b (adj a
 Proof. intros adj Hs Hi stack k p' H. eapply assign_proper; eauto. apply init_pool_proper. Qed.
 Print Assumptions C08_assign_proper.
 
+(* Stage lemma (model of create_interference_graph, not tied to dumps): every pair of registers
+   valid_alloc requires to be apart is an edge (the MOVE source is exempt, as in the Rust code),
+   for any liveness table that is a post-fixpoint. *)
+Theorem C08_interference_complete : forall ops L, is_postfix defs (items_of ops) L = true ->
+  (forall i o, nth_error ops i = Some o -> wf_kind o) ->
+  forall i o d v, nth_error ops i = Some o -> In d (defs o) -> is_virt d = true -> is_virt v = true ->
+    live_out ops i v -> v <> d -> (forall s, kind o = KMove d s -> v <> s) ->
+    In (d, v) (interference_edges ops L).
+Proof. exact interference_complete. Qed.
+Print Assumptions C08_interference_complete.
+
 (* Non-vacuity: a loop with two simultaneously live registers; a correct 2-register assignment
    is accepted, merging the two live registers is rejected. *)
 Definition ex_ops : list op :=
